@@ -227,8 +227,8 @@ add("C23", "c_mtproto",
     note="When handling returns an error (malformed sibling, duplicate result) the client drops the rest of that container; delivery of the siblings is not asserted.",
     fuzz=[])
 add("C41", "c_mtproto",
-    [T("TestC41Salts", 30000, 300000), T("TestC41SaltsParallel", 400, 4000, env={"GOMAXPROCS": "8"}), T("TestC41Conn", 10000, 80000, env=CONN)],
-    rule="(c) salts.Salts under real parallelism: 1..4 goroutines calling Get while 1..4 store drawn sets (expired, expiring at the deadline, valid, repeated), 1500 rounds each, a valid salt stored beforehand (non-trivial = a stale salt among the stored sets); (a) salts.Salts under store (fresh, re-sent identical triples, already expired, far future) / clock advance / reset / get with a fixed lookahead, against a map model; (b) a live connection: new_session_created salt, future_salts answers with overlapping / duplicated / expired windows, virtual sleeps up to 3 h, invokes, bad_server_salt once or twice for a request. non-trivial = an expired salt is dropped or a duplicate/expired triple stored (a) / clock crosses a salt expiry or a bad-salt event (b); distinct by action list",
+    [T("TestC41Salts", 30000, 300000), T("TestC41SaltsParallel", 400, 4000, env={"GOMAXPROCS": "8"}), T("TestC41Conn", 10000, 80000, env=CONN), T("TestC41Regen", 60, 600, env=CONN)],
+    rule="(d) key regeneration after a transport -404 with 0..3 requests issued while the exchange is under way (one server answer held back) and 0..2 after it: every frame the server receives afterwards is under the new key and carries the salt the exchange told (non-trivial = a request issued during the exchange); (c) salts.Salts under real parallelism: 1..4 goroutines calling Get while 1..4 store drawn sets (expired, expiring at the deadline, valid, repeated), 1500 rounds each, a valid salt stored beforehand (non-trivial = a stale salt among the stored sets); (a) salts.Salts under store (fresh, re-sent identical triples, already expired, far future) / clock advance / reset / get with a fixed lookahead, against a map model; (b) a live connection: new_session_created salt, future_salts answers with overlapping / duplicated / expired windows, virtual sleeps up to 3 h, invokes, bad_server_salt once or twice for a request. non-trivial = an expired salt is dropped or a duplicate/expired triple stored (a) / clock crosses a salt expiry or a bad-salt event (b); distinct by action list",
     technique="model-based stateful PBT (rapid) + live connection against the reference peer on virtual time + parallel stress with an invariant oracle (runtime-scheduled)",
     text="Get returns only salts valid beyond the deadline and fails only when none is; every client frame carries a salt the server told or a stored future salt valid beyond now+5min; bad_server_salt => exactly one re-send with the new salt; a second one fails the call.",
     note="Tolerated and counted: the client keeps a previously stored future salt when every stored salt has expired and the server told nothing newer (no valid salt exists then).")
